@@ -80,3 +80,40 @@ Proof.
   intros H1 H2 O1 O2 Hag. unfold erode. apply forallb_ext_in'. intros [u v] Hin. apply in_ewin in Hin; auto. cbn [fst snd].
   rewrite (Hag u v) by tauto. reflexivity.
 Qed.
+
+(* ------------------------------------------------------------------ block-wise erosion (fuse: one erosion per block)
+   A block's erosion agrees with the whole-image erosion at (i, j) when, on every side, either the block edge is the image edge or
+   the grown kernel window of (i, j) stays inside the block. *)
+Theorem erode_blk_is_whole H W r0 c0 Hb Wb m kh kw i j : 1 <= kh -> 1 <= kw -> kh mod 2 = 1 -> kw mod 2 = 1 ->
+  0 <= r0 -> r0 + Hb <= H -> 0 <= c0 -> c0 + Wb <= W ->
+  (r0 = 0 \/ r0 + ((kh - 1) / 2 + 1) <= i) -> (r0 + Hb = H \/ i + ((kh - 1) / 2 + 1) < r0 + Hb) ->
+  (c0 = 0 \/ c0 + ((kw - 1) / 2 + 1) <= j) -> (c0 + Wb = W \/ j + ((kw - 1) / 2 + 1) < c0 + Wb) ->
+  erode_blk r0 c0 Hb Wb m kh kw i j = erode H W m kh kw i j.
+Proof.
+  intros H1 H2 O1 O2 A1 A2 A3 A4 T B L R. unfold erode_blk, erode. apply forallb_ext_in'. intros [u v] Hin.
+  apply in_ewin in Hin; auto. cbn [fst snd]. f_equal. unfold inbf, inb.
+  destruct Hin as [Hu Hv].
+  repeat match goal with |- context [?a <=? ?b] => destruct (Z.leb_spec a b) end;
+  repeat match goal with |- context [?a <? ?b] => destruct (Z.ltb_spec a b) end; cbn; try reflexivity; exfalso; lia.
+Qed.
+
+(* Source pixels of a block's output window take their mask from the processing pixel their centre falls in (nearest re-projection);
+   on unaligned grids that pixel can lie one pixel beyond the block's processing-grid output window.  With an overlap of at least
+   erosion reach + 1 every such position satisfies the premise above. *)
+Theorem seam_sampling_safe H W r0 c0 Hb Wb m kh kw oh ow i j : 1 <= kh -> 1 <= kw -> kh mod 2 = 1 -> kw mod 2 = 1 ->
+  0 <= r0 -> r0 + Hb <= H -> 0 <= c0 -> c0 + Wb <= W ->
+  (kh - 1) / 2 + 1 + 1 <= oh -> (kw - 1) / 2 + 1 + 1 <= ow ->
+  (* (i, j) is at most one pixel outside the output window = the block shrunk by the overlap on every side that is not the image edge *)
+  (r0 = 0 \/ r0 + oh - 1 <= i) -> (r0 + Hb = H \/ i <= r0 + Hb - oh) ->
+  (c0 = 0 \/ c0 + ow - 1 <= j) -> (c0 + Wb = W \/ j <= c0 + Wb - ow) ->
+  erode_blk r0 c0 Hb Wb m kh kw i j = erode H W m kh kw i j.
+Proof.
+  intros H1 H2 O1 O2 A1 A2 A3 A4 Eh Ew T B L R. apply erode_blk_is_whole; auto; [destruct T|destruct B|destruct L|destruct R]; auto; right; lia.
+Qed.
+
+(* with the overlap equal to the erosion reach (the value used before the repair) the position one pixel beyond the output window is lost:
+   image 12 x 12 all valid, block rows 4.., 3 x 3 kernel (reach 2 = overlap 2), sample at row 4 + 2 - 1 *)
+Example seam_sampling_legacy_refuted :
+  let m := fun _ _ : Z => true in
+  erode_blk 4 0 8 12 m 3 3 5 6 = false /\ erode 12 12 m 3 3 5 6 = true /\ erode_blk 3 0 9 12 m 3 3 5 6 = true.
+Proof. vm_compute. repeat split; reflexivity. Qed.
